@@ -244,6 +244,19 @@ structure Outcome (α : Type) where
   errnoAfter : Nat
   deriving DecidableEq, Repr
 
+/-- from the body on: exceptions, output bounds, `errno`/non-finite post-treatment -/
+def execBody (k : Skeleton α) (c : Call α) (s3 : St) : St :=
+  match c.body.exc with
+  | .std => run k.onStdException s3
+  | .other => run k.onOtherException s3
+  | .none =>
+    let s4 := if c.body.errno ≠ 0 then { s3 with errno := c.body.errno } else s3
+    let s5 := runChecks c.policy c.args c.body.out k.outChecks s4
+    let s6 := if s5.errno ≠ 0 then run k.onErrno s5 else s5
+    let s7 := run k.afterErrno s6
+    let s8 := if !(Val.isFinite c.body.out) then run k.onNonFinite s7 else s7
+    run k.epilogue s8
+
 def exec (k : Skeleton α) (c : Call α) : St :=
   let s0 : St := { status := 0, bounds := 0, cerr := 0, errno := c.errno0, saved := 0, reports := 0, ret := none }
   let s1 := run k.prologue s0
@@ -251,17 +264,7 @@ def exec (k : Skeleton α) (c : Call α) : St :=
   let s3 := runChecks c.policy c.args .nan k.inChecks s2
   match s3.ret with
   | some _ => s3
-  | none =>
-    match c.body.exc with
-    | .std => run k.onStdException s3
-    | .other => run k.onOtherException s3
-    | .none =>
-      let s4 := if c.body.errno ≠ 0 then { s3 with errno := c.body.errno } else s3
-      let s5 := runChecks c.policy c.args c.body.out k.outChecks s4
-      let s6 := if s5.errno ≠ 0 then run k.onErrno s5 else s5
-      let s7 := run k.afterErrno s6
-      let s8 := if !(Val.isFinite c.body.out) then run k.onNonFinite s7 else s7
-      run k.epilogue s8
+  | none => execBody k c s3
 
 def outcome (c : Call α) (s : St) : Outcome α :=
   { status := s.status, bounds := s.bounds, cerr := s.cerr,
@@ -276,6 +279,12 @@ def call (d : Desc α) (c : Call α) : Outcome α := outcome c (exec (emit d) c)
 /-! ### the documented contract, stated directly -/
 
 def bndViolated (b : Bnd α) (x : Val α) : Bool := violated b.kind b.lo b.hi x
+
+/-- an optional bound is violated -/
+def optViolated (o : Option (Bnd α)) (x : Val α) : Bool :=
+  match o with
+  | some b => bndViolated b x
+  | none => false
 
 /-- rank of the first variable (ranks from `r`) whose physical bounds are violated -/
 def firstPhys : Nat → List (Var α) → List (Val α) → Option Nat
@@ -303,6 +312,29 @@ def lastStd : Nat → Nat → List (Var α) → List (Val α) → Nat
   | w, _, [], _ => w
   | w, _, _ :: _, [] => w
 
+/-- the documented outcome once the arguments have passed (`w`: rank reported by a Warning, 0 if none) -/
+def specBody (d : Desc α) (c : Call α) (w : Nat) : Outcome α :=
+  let n := d.inputs.length
+  let e := c.errno0
+  let s0 : Int := if w = 0 then 0 else 1
+  match c.body.exc with
+  | .std => ⟨-2, w, 0, none, e⟩
+  | .other => ⟨-2, w, 0, none, e⟩
+  | .none =>
+    let y := c.body.out
+    let physOut := optViolated d.output.phys y
+    let stdOut := optViolated d.output.std y
+    if physOut then ⟨-1, -((n + 1 : Nat) : Int), 0, none, e⟩
+    else if stdOut && c.policy = .strict then ⟨-1, -((n + 1 : Nat) : Int), 0, none, e⟩
+    else
+      let warnOut := stdOut && c.policy = .warning
+      let s1 : Int := if warnOut then 1 else s0
+      let w1 : Int := if warnOut then ((n + 1 : Nat) : Int) else (w : Int)
+      let s2 : Int := if c.body.errno ≠ 0 then -3 else s1
+      let ce : Int := if c.body.errno ≠ 0 then (c.body.errno : Int) else 0
+      let s3 : Int := if !(Val.isFinite y) then -4 else s2
+      ⟨s3, w1, ce, some y, e⟩
+
 def spec (d : Desc α) (c : Call α) : Outcome α :=
   let n := d.inputs.length
   let e := c.errno0
@@ -314,29 +346,7 @@ def spec (d : Desc α) (c : Call α) : Outcome α :=
     | some r => ⟨-1, -(r : Int), 0, none, e⟩
     | none =>
       -- Warning: the computation goes on; the rank of the last out-of-bounds argument is reported
-      let w : Nat := if c.policy = .warning then lastStd 0 1 d.inputs c.args else 0
-      let s0 : Int := if w = 0 then 0 else 1
-      match c.body.exc with
-      | .std => ⟨-2, w, 0, none, e⟩
-      | .other => ⟨-2, w, 0, none, e⟩
-      | .none =>
-        let y := c.body.out
-        let physOut := match d.output.phys with
-          | some b => bndViolated b y
-          | none => false
-        let stdOut := match d.output.std with
-          | some b => bndViolated b y
-          | none => false
-        if physOut then ⟨-1, -((n + 1 : Nat) : Int), 0, none, e⟩
-        else if stdOut && c.policy = .strict then ⟨-1, -((n + 1 : Nat) : Int), 0, none, e⟩
-        else
-          let warnOut := stdOut && c.policy = .warning
-          let s1 : Int := if warnOut then 1 else s0
-          let w1 : Int := if warnOut then ((n + 1 : Nat) : Int) else (w : Int)
-          let s2 : Int := if c.body.errno ≠ 0 then -3 else s1
-          let ce : Int := if c.body.errno ≠ 0 then (c.body.errno : Int) else 0
-          let s3 : Int := if !(Val.isFinite y) then -4 else s2
-          ⟨s3, w1, ce, some y, e⟩
+      specBody d c (if c.policy = .warning then lastStd 0 1 d.inputs c.args else 0)
 
 /-! ### C interface: `<law>_checkBounds` -/
 
